@@ -539,4 +539,175 @@ theorem missing_endquote_step (dia : Dialect) (q : Nat) (hq : q = 34 ∨ q = 39)
     subst hd
     simp [keyPeek, mkTok, colon]
 
+/-! ### CIF_UNCLOSED_TEXT: a text field or a triple-quoted string that is not closed before the end of the input -/
+
+/-- a triple-quoted body in which the delimiter never occurs three times in a row (it may END with one or two) -/
+def tripleOpen (q : CU) : Nat → Str → Bool
+  | _, [] => true
+  | cnt, c :: r => if c = q then decide (cnt + 1 < 3) && tripleOpen q (cnt + 1) r else tripleOpen q 0 r
+
+theorem scanText_unclosed (dia : Dialect) (log : List Report) :
+    ∀ (s : Str) (pend : Option CU) (acc : Str) (line col sol : Nat),
+      okUnits dia pend s = true → pendOk dia pend acc → textBody (decide (sol ≠ 0)) s = true → sol % 4 ≠ 2 →
+      linesFit col s = true →
+      scanText dia s line col pend.isSome acc sol acceptAll log
+        = .ok ⟨s.reverse ++ acc, ⟨[], (posAfter line col s).1, (posAfter line col s).2⟩⟩
+            (⟨CIF_UNCLOSED_TEXT, (posAfter line col s).1, (posAfter line col s).2⟩ :: log) := by
+  have hlfc : classOf dia 10 = .eol := by cases dia <;> decide
+  have hscc : classOf dia 59 = .semi := by cases dia <;> decide
+  intro s
+  induction s with
+  | nil =>
+    intro pend acc line col sol hok _ _ _ _
+    cases pend with
+    | some l => simp [okUnits] at hok
+    | none => simp [scanText, leadAtEof, L.bind, report_accept, posAfter]
+  | cons c s ih =>
+    intro pend acc line col sol hok hp hbody hsol hfit
+    obtain ⟨hstep, hok', hp', hf, hch⟩ := ok_step dia pend c s acc hok hp line col acceptAll log
+    simp only [scanText, bind_eq, pure_eq]
+    rw [L.bind_ok hstep]
+    simp only [fixAcc_false]
+    simp only [textBody, Bool.and_eq_true, Bool.not_eq_true', Bool.and_eq_false_iff, decide_eq_false_iff_not, ne_eq,
+      Decidable.not_not, beq_eq_false_iff_ne] at hbody
+    by_cases h59 : c = 59
+    · subst h59
+      have hsol0 : sol = 0 := by
+        rcases hbody.1 with h | h
+        · exact h
+        · exact absurd rfl h
+      subst hsol0
+      have h10 : ¬ (59 : Nat) = 10 := by decide
+      simp only [linesFit, h10, if_false] at hfit
+      have hb : textBody (decide ((0 : Nat) ≠ 0)) s = true := by simpa [isEol] using hbody.2
+      have := ih (nextPend 59) (59 :: acc) line (col + (if isTrailU 59 then 0 else 1)) 0 hok' hp' hb hsol hfit
+      rw [isSome_nextPend] at this
+      simp only [hscc, if_true, ne_eq, not_true_eq_false, if_false]
+      rw [this]
+      simp [posAfter]
+    · have hnsemi : ¬ classOf dia c = .semi := by rw [hf.semi]; exact h59
+      simp only [hnsemi, if_false]
+      by_cases h10 : c = 10
+      · subst h10
+        simp only [linesFit, if_true, Bool.and_eq_true, decide_eq_true_eq] at hfit
+        have ht : isTrailU 10 = false := by decide
+        have hl : isLeadU 10 = false := by decide
+        simp only [hlfc, if_true, ht, Bool.false_eq_true, if_false, Nat.add_sub_cancel]
+        rw [L.bind_ok (handleEol_lf line col sol hfit.1 hsol acceptAll log)]
+        have hb : textBody (decide ((sol * 4 + 1) % 16 ≠ 0)) s = true := by
+          have : (sol * 4 + 1) % 16 ≠ 0 := by omega
+          simpa [isEol, this] using hbody.2
+        have := ih none (10 :: acc) (line + 1) 0 ((sol * 4 + 1) % 16) (by simpa [nextPend, hl] using hok') trivial hb (by omega) hfit.2
+        simp only [Option.isSome_none] at this
+        simp only [hl]
+        rw [this]
+        simp [posAfter]
+      · have hne : ¬ classOf dia c = .eol := by rw [hf.eol]; exact h10
+        simp only [linesFit, h10, if_false] at hfit
+        have hb : textBody (decide ((0 : Nat) ≠ 0)) s = true := by
+          have : isEol c = false := by simp [isEol, h10]
+          simpa [this] using hbody.2
+        have := ih (nextPend c) (c :: acc) line (col + (if isTrailU c then 0 else 1)) 0 hok' hp' hb (by omega) hfit
+        rw [isSome_nextPend] at this
+        simp only [hne, if_false]
+        rw [this]
+        simp [posAfter, h10]
+
+theorem scanTriple_unclosed (q : Nat) (hq : q = 34 ∨ q = 39) (log : List Report) :
+    ∀ (s : Str) (pend : Option CU) (acc : Str) (line col cnt sol : Nat),
+      okUnits .cif2 pend s = true → pendOk .cif2 pend acc → tripleOpen q cnt s = true → sol % 4 ≠ 2 → linesFit col s = true →
+      scanTriple .cif2 q s line col pend.isSome acc cnt sol acceptAll log
+        = .ok ⟨s.reverse ++ acc, ⟨[], (posAfter line col s).1, (posAfter line col s).2⟩⟩
+            (⟨CIF_UNCLOSED_TEXT, (posAfter line col s).1, (posAfter line col s).2⟩ :: log) := by
+  intro s
+  induction s with
+  | nil =>
+    intro pend acc line col cnt sol hok _ _ _ _
+    cases pend with
+    | some l => simp [okUnits] at hok
+    | none => simp [scanTriple, leadAtEof, L.bind, report_accept, posAfter]
+  | cons c s ih =>
+    intro pend acc line col cnt sol hok hp hbody hsol hfit
+    obtain ⟨hstep, hok', hp', hf, _⟩ := ok_step .cif2 pend c s acc hok hp line col acceptAll log
+    simp only [scanTriple, bind_eq, pure_eq]
+    rw [L.bind_ok hstep]
+    simp only [fixAcc_false]
+    by_cases hcq : c = q
+    · subst hcq
+      have hc10 : ¬ c = 10 := by rcases hq with h | h <;> omega_cu
+      simp only [tripleOpen, if_true, Bool.and_eq_true, decide_eq_true_eq] at hbody
+      have hge : ¬ cnt + 1 ≥ 3 := by omega
+      simp only [linesFit, hc10, if_false] at hfit
+      have := ih (nextPend c) (c :: acc) line (col + (if isTrailU c then 0 else 1)) (cnt + 1) sol hok' hp' hbody.2 hsol hfit
+      rw [isSome_nextPend] at this
+      simp only [if_true, hge, if_false]
+      rw [this]
+      simp [posAfter, hc10]
+    · simp only [tripleOpen, hcq, if_false] at hbody
+      simp only [hcq, if_false]
+      by_cases h10 : c = 10
+      · subst h10
+        have heol : classOf .cif2 10 = .eol := by decide
+        simp only [linesFit, if_true, Bool.and_eq_true, decide_eq_true_eq] at hfit
+        have ht : isTrailU 10 = false := by decide
+        simp only [heol, if_true, ht, Bool.false_eq_true, if_false, Nat.add_sub_cancel]
+        rw [L.bind_ok (handleEol_lf line col sol hfit.1 hsol acceptAll log)]
+        have hl : isLeadU 10 = false := by decide
+        have := ih none (10 :: acc) (line + 1) 0 0 ((sol * 4 + 1) % 16) (by simpa [nextPend, hl] using hok') trivial hbody (by omega) hfit.2
+        simp only [Option.isSome_none] at this
+        simp only [hl]
+        rw [this]
+        simp [posAfter]
+      · have hne : ¬ classOf .cif2 c = .eol := by rw [hf.eol]; exact h10
+        simp only [linesFit, h10, if_false] at hfit
+        have := ih (nextPend c) (c :: acc) line (col + (if isTrailU c then 0 else 1)) 0 0 hok' hp' hbody (by omega) hfit
+        rw [isSome_nextPend] at this
+        simp only [hne, if_false]
+        rw [this]
+        simp [posAfter, h10]
+
+/-- next_token's dispatch for a semicolon in column 1 -/
+theorem text_dispatch (dia : Dialect) (r : Str) (line : Nat) :
+    stepTok dia true 59 r line 0
+      = L.bind (scanText dia r line 1 false [] 0) (fun s =>
+          if dia = .cif2 then L.pure (keyPeek .tkey .tvalue s.acc.reverse s.pos) else L.pure (mkTok .tvalue s.acc.reverse s.pos)) := by
+  have hcls : classOf dia 59 = .semi := by cases dia <;> decide
+  unfold stepTok
+  simp only [bind_eq]
+  simp only [pure_eq]
+  have : (metaOfCls (classOf dia 59) != Meta.close && metaOfCls (classOf dia 59) != Meta.ws && !true) = false := by simp
+  rw [this, reportIf_false, L.pure_bind]
+  simp only [hcls, show ¬ (Cls.semi = Cls.eol) from by decide, show ¬ (Cls.semi = Cls.ws) from by decide,
+    show ¬ (Cls.semi = Cls.hash) from by decide, show ¬ (Cls.semi = Cls.undersc) from by decide,
+    show ¬ (Cls.semi = Cls.obrak) from by decide, show ¬ (Cls.semi = Cls.cbrak) from by decide,
+    show ¬ (Cls.semi = Cls.ocurl) from by decide, show ¬ (Cls.semi = Cls.ccurl) from by decide,
+    show ¬ (Cls.semi = Cls.quote) from by decide, if_false, if_true, Nat.zero_add]
+
+/-- **CIF_UNCLOSED_TEXT (text field)**: `;` at the beginning of a line, a body no line of which begins with `;`, the end of the
+    input: ONE report, at the last line; the token is the text value with the WHOLE rest of the input as body -/
+theorem unclosed_text_step (dia : Dialect) (s : Str) (line : Nat) (log : List Report)
+    (hok : textOk dia s = true) (hfit : linesFit 1 s = true) :
+    stepTok dia true 59 s line 0 acceptAll log
+      = .ok (.tok ⟨.tvalue, s, (posAfter line 1 s).1, (posAfter line 1 s).2⟩ ⟨[], (posAfter line 1 s).1, (posAfter line 1 s).2⟩)
+          (⟨CIF_UNCLOSED_TEXT, (posAfter line 1 s).1, (posAfter line 1 s).2⟩ :: log) := by
+  simp only [textOk, Bool.and_eq_true] at hok
+  have hscan := scanText_unclosed dia log s none [] line 1 0 hok.1 trivial (by simpa using hok.2) (by decide) hfit
+  simp only [Option.isSome_none] at hscan
+  rw [text_dispatch, L.bind_ok hscan]
+  cases dia <;> simp [keyPeek, mkTok]
+
+/-- **CIF_UNCLOSED_TEXT (triple-quoted string)**: the opening delimiter, a body without three delimiters in a row, the end of
+    the input: ONE report; the token is the quoted value with the whole rest of the input as text -/
+theorem unclosed_triple_step (q : Nat) (hq : q = 34 ∨ q = 39) (s : Str) (line col : Nat) (log : List Report)
+    (hok : okUnits .cif2 none s = true) (hopen : tripleOpen q 0 s = true) (hfit : linesFit (col + 3) s = true) :
+    stepTok .cif2 true q (q :: q :: s) line col acceptAll log
+      = .ok (.tok ⟨.qvalue, s, (posAfter line (col + 3) s).1, (posAfter line (col + 3) s).2⟩
+                  ⟨[], (posAfter line (col + 3) s).1, (posAfter line (col + 3) s).2⟩)
+          (⟨CIF_UNCLOSED_TEXT, (posAfter line (col + 3) s).1, (posAfter line (col + 3) s).2⟩ :: log) := by
+  have hscan := scanTriple_unclosed q hq log s none [] line (col + 1 + 2) 0 0 hok trivial hopen (by decide) hfit
+  simp only [Option.isSome_none] at hscan
+  have hscan' := (scanDelim_triple_open q hq s line (col + 1) acceptAll log).trans hscan
+  rw [quote_dispatch .cif2 q hq, L.bind_ok hscan']
+  simp [keyPeek, mkTok]
+
 end CifModel.Model.Lexer
